@@ -1132,6 +1132,7 @@ func gen(g *core.G) {
 	genIface(g)
 	genGoObj(g)
 	genIfaceX(g)
+	genNested(g)
 	chains, perChain, tuples := 800, 4, 5
 	if g.Thorough() {
 		chains, perChain = 20000, 2
